@@ -385,7 +385,8 @@ def cpp(n):
     if k == "F":
         return "&vs::f%s%d" % (n[1], n[2])
     if k == "M":
-        return "sigc::mem_fun(%s, &%s::m%s%d)" % (cpp_obj(n[3]), CLS_NAME[n[3][0]], n[1], n[2])
+        # directly-trackable objects bind a method inherited from a non-trackable base (b*), the others their own (m*)
+        return "sigc::mem_fun(%s, &%s::%s%s%d)" % (cpp_obj(n[3]), CLS_NAME[n[3][0]], "b" if n[3][0] == "d" else "m", n[1], n[2])
     if k == "S":
         return "p.%s<%s>(%s).make_slot()" % (n[3][0], SIG_CPP[(n[1], n[2])], n[3][1:])
     if k == "bind":
